@@ -10,6 +10,7 @@ func init() {
 	vRegister("HT_C06_key", HT_C06_key)
 	vRegister("H_C06_key_faulted", H_C06_key_faulted)
 	vRegister("H_C06_hashenv", H_C06_hashenv)
+	vRegister("H_C06_hashenv_params", H_C06_hashenv_params)
 	vRegister("H_C06_garbage", H_C06_garbage)
 }
 
@@ -259,6 +260,74 @@ func H_C06_hashenv() {
 	wire, _ := c05Wire(nnTag(18, body, 0), fp)
 	sv := &spyVerifier{alg: Algorithm(vInt64("valg"))}
 	if m, err := VerifyHashEnvelope(sv, wire); err == nil {
+		m.MarshalCBOR()
+		vReach("accepted")
+	}
+	vReach("end")
+}
+
+// hash-envelope parameters (258 / 259 / 260) of every spelling, with one position replaced by an arbitrary item
+func H_C06_hashenv_params() {
+	fp := mkFaultPlan(c05Budget())
+	var pp, up []*vNodeT
+	// keys and wrappers are exact here (H_C06_hashenv faults those); every parameter VALUE is a fault position
+	add := func(dst *[]*vNodeT, label uint64, nm string, val func() *vNodeT) {
+		var v *vNodeT
+		if fp.at() {
+			v = mkAny("fault.he.val."+nm, vTier())
+		} else {
+			v = val()
+		}
+		*dst = append(*dst, nnInt(0, label, vWidth("he.kw."+nm, label)), v)
+	}
+	anyInt := func(nm string) func() *vNodeT {
+		return func() *vNodeT {
+			mag := vUint64("he." + nm)
+			vAssume(mag <= 1<<63-1)
+			return nnInt(vChoose("he."+nm+".sign", 2), mag, vWidth("he."+nm+".w", mag))
+		}
+	}
+	text := func(nm string, max int) func() *vNodeT {
+		return func() *vNodeT {
+			s := vStr("he."+nm, max)
+			return nnTstr(s, vWidth("he."+nm+".w", uint64(len(s))))
+		}
+	}
+	add(&pp, 1, "alg", anyInt("alg"))
+	add(&pp, 258, "halg", anyInt("halg"))
+	ctk, lock := 0, 0
+	if vTier() == 1 {
+		ctk, lock = vChoose("he.ct", 4), vChoose("he.loc", 3)
+	} else { // quick: one optional parameter at a time
+		switch sh := vChoose("he.shape", 6); sh {
+		case 1, 2, 3:
+			ctk = sh
+		case 4, 5:
+			lock = sh - 3
+		}
+	}
+	switch ctk {
+	case 1:
+		add(&pp, 259, "ct", anyInt("ctu"))
+	case 2:
+		add(&pp, 259, "ct", text("cts", 3))
+	case 3: // in the wrong bucket
+		add(&up, 259, "ct", text("cts", 3))
+	}
+	switch lock {
+	case 1:
+		add(&pp, 260, "loc", text("locs", 2))
+	case 2:
+		add(&up, 260, "loc", text("locs", 2))
+	}
+	content := vSer(nnMap(pp, vWidth("he.pmw", uint64(len(pp)/2))))
+	prot := nnBstr(content, vWidth("he.pbw", uint64(len(content))))
+	unprot := nnMap(up, vWidth("he.umw", uint64(len(up)/2)))
+	hash := vBlob("he.hash")
+	sig := vBlobN("he.sig", 1, 200)
+	body := nnArray([]*vNodeT{prot, unprot, nnBstr(hash, vWidth("he.hw", uint64(len(hash)))), nnBstr(sig, vWidth("he.sw", uint64(len(sig))))}, 0)
+	sv := &spyVerifier{alg: Algorithm(vInt64("valg"))}
+	if m, err := VerifyHashEnvelope(sv, vSer(nnTag(18, body, 0))); err == nil {
 		m.MarshalCBOR()
 		vReach("accepted")
 	}
